@@ -419,7 +419,12 @@ type emitWorld struct {
 }
 
 func newEmitWorld(n, r int) *emitWorld {
-	c := chainkit.NewChain(theT, n, chainkit.Options{})
+	// (committees of 4 and more keys have fewer consensus nodes than members when the Inner Ring size is even)
+	v := 0
+	if n >= 4 && r%2 == 0 {
+		v = n - 2
+	}
+	c := chainkit.NewChain(theT, n, chainkit.Options{Validators: v})
 	fs := chainkit.NewFS(c, chainkit.FSOptions{Contracts: []string{"netmap", "proxy", "alphabet"}})
 	w := &emitWorld{c: c, fs: fs, proxy: fs.H["proxy"], names: map[util.Uint160]string{fs.H["proxy"]: "Proxy"}}
 	var pubs keys.PublicKeys
